@@ -752,9 +752,15 @@ func binop(op token.Token, t types.Type, x, y value) value {
 		}
 
 	case token.EQL:
+		if deepHasSym(x) || deepHasSym(y) {
+			return mkVal(types.Bool, deepEqTerm(t, x, y))
+		}
 		return eqnil(t, x, y)
 
 	case token.NEQ:
+		if deepHasSym(x) || deepHasSym(y) {
+			return mkVal(types.Bool, TNot(deepEqTerm(t, x, y)))
+		}
 		return !eqnil(t, x, y)
 
 	case token.GTR:
@@ -907,6 +913,9 @@ func unop(instr *ssa.UnOp, x value) value {
 			return -x
 		}
 	case token.MUL:
+		if Sched != nil {
+			logAccess(x.(*value), false, false)
+		}
 		return load(mustDeref(instr.X.Type()), x.(*value))
 	case token.NOT:
 		return !x.(bool)
